@@ -9,11 +9,14 @@ CONSTANTS
   RecheckISR = TRUE
   KeepOnFail = FALSE
   CountAll = FALSE
-  InitISRs = {{"r1"}, {"r1", "r2"}, {"r1", "r2", "r3"}, {"r1", "r2", "r3", "r4"}}
+  InitISRs = {{"r1", "r2"}, {"r1", "r2", "r3"}}
   L0 = "r1"
-  PairSels = {"cur", "sl", "prev", "next", "pep", "first", "own"}
-  MaxOps = 16
-  Faults = TRUE
+  PairSels = {"cur"}
+  MaxOps = 3
+  Faults = FALSE
   EffectiveOnly = FALSE
-  MaxPend = 0
+  MaxPend = 1
+INVARIANTS TypeOK C07_LeaderInISR StatusLive WitnessesAreGood PersistedISR
+PROPERTIES StepsOK
+VIEW MCView
 CHECK_DEADLOCK FALSE
